@@ -110,6 +110,9 @@ type world struct {
 	raw  []*rawkv.Client
 	txn  []*tikv.KVStore
 	uses int
+	// dirty: an operation failed or disagreed with the reference; client-side state
+	// (region cache, store liveness) may be affected, so the world is not reused.
+	dirty atomic.Bool
 }
 
 // A world is retired after worldMaxUses sequences: the mock's leveldb keeps every
@@ -143,7 +146,7 @@ func putWorld(key string, w *world) {
 		return // abandoned operations may still run on it
 	}
 	w.uses++
-	if w.uses >= worldMaxUses {
+	if w.uses >= worldMaxUses || w.dirty.Load() {
 		w.close()
 		return
 	}
@@ -434,6 +437,11 @@ func runIsolated(alpha []rop, seq []int) []string {
 		out = append(out, normalise(apply(c, alpha[oi], "#", i, false), "#"))
 	}
 	out = append(out, apply(c, rop{Kind: "scan"}, "#", 99, false))
+	for _, r := range out {
+		if strings.Contains(r, "ERR:") {
+			w.dirty.Store(true)
+		}
+	}
 	return out
 }
 
@@ -581,8 +589,12 @@ func runShared(alpha []rop, pair [2]uint32, seqA, seqB, seqV []int, refA, refB, 
 			run.Note("differential: %s %v did not return within %v (sequence %v)", who, o, opGuard, replay.Ops)
 			return
 		}
+		if strings.Contains(got, "ERR:") {
+			w.dirty.Store(true)
+		}
 		if normalise(got, tag) != want {
 			diffViolCount.Add(1)
+			w.dirty.Store(true)
 			key := "diff:" + who + ":" + opKind(o)
 			if seesForeign(got, tag) {
 				key = "diff:isolation:" + who + ":" + opKind(o)
